@@ -231,7 +231,10 @@ def run(task, ctx):
                 decoded = check_envelope(ctx, label, data)
             except runner.Hang:
                 ctx.cap('a non-terminating input was skipped (see C08)')
+                ctx.count('hangs')
                 ctx.rearm(4)
+                if ctx.counters['hangs'] >= 3:
+                    break
                 continue
             ctx.case(data, decoded)
 
